@@ -33,13 +33,18 @@ pub fn materialize(root: &Path, tree: &Tree) -> std::io::Result<()> {
     for (rel, node) in tree {
         let p = root.join(rel);
         match node {
+            // with umask 022 a fresh directory is 755 and a fresh file 644; chmod only when needed
             Node::Dir { mode } => {
                 std::fs::create_dir(&p)?;
-                std::fs::set_permissions(&p, std::fs::Permissions::from_mode(*mode))?;
+                if *mode != 0o755 {
+                    std::fs::set_permissions(&p, std::fs::Permissions::from_mode(*mode))?;
+                }
             }
             Node::File { bytes, mode } => {
                 std::fs::write(&p, bytes)?;
-                std::fs::set_permissions(&p, std::fs::Permissions::from_mode(*mode))?;
+                if *mode != 0o644 {
+                    std::fs::set_permissions(&p, std::fs::Permissions::from_mode(*mode))?;
+                }
             }
             Node::Other => return Err(std::io::Error::other("cannot materialise a special file")),
         }
